@@ -112,10 +112,206 @@ func shareArgs(l ...Snip) Snip           { x := snippets(l...); x.Share = true; 
 type gen struct {
 	r    *core.RNG
 	rich bool // RenderStack stream: leaves that refer to packages
+	wide bool // code-space stream: the characters next to placeholders, '@', apostrophes and verbs come from all planes
+	seq  bool // sequence stream: Snippets whose iter.Seq is not re-iterable
+}
+
+// ---- characters from all over the code space ----
+//
+// The template scanner decides per RUNE whether it continues a placeholder name ([A-Za-z0-9_]), starts one ('@'),
+// delimits one (apostrophe); Sprintf does the same for '%', 'v', 'T'; Comment splits at newlines.  Any other character
+// is text, whatever its code point looks like: aliasTargets are the ASCII characters with a role, aliasLifts put each of
+// them into the low 7 / 8 / 16 bits of a code point of another block, so that a comparison made on a truncated or masked
+// rune (byte(c), uint16(c), c&0x7f, a 128/256-entry table) takes the one for the other.
+var aliasTargets = []byte{'A', 'Z', 'a', 'm', 'z', '0', '9', '_', '@', '\'', '%', 'v', 'T', '\n', ' ', '.', 0x00, 0x7f}
+
+var aliasLifts = []rune{
+	0x80,     // Latin-1: the low 7 bits are the target ('Á' U+00C1 -> 'A', 'À' U+00C0 -> '@')
+	0x100,    // Latin Extended-A: the low byte is the target ('Ł' U+0141 -> 'A', 'ź' U+017A -> 'z')
+	0x300,    // combining marks / Greek
+	0x400,    // Cyrillic ('с' U+0441)
+	0x2000,   // general punctuation (U+2027, U+200A)
+	0x5B00,   // CJK ('字' U+5B57, U+5B41, U+5B40)
+	0xAC00,   // Hangul
+	0xFF00,   // fullwidth forms block
+	0x10000,  // astral, the low 16 bits are the target (U+10041)
+	0x1F600,  // astral, the low byte is the target (U+1F641)
+	0x20000,  // plane 2, low 16 bits
+	0x100000, // plane 16, low 16 bits
+}
+
+// characters that are letters / digits / connectors / quotes / spaces for Unicode but not for the template syntax,
+// case-folding partners of ASCII letters, the ends of the UTF-8 length classes and of the code space
+var aliasExtra = []rune{
+	'字', '数', '界', 'Ł', 'ź', 'é', 'ü', 'ß', 'π', 'Ж', 'я', '世', '的', '→',
+	0xFF20, 0xFF07, 0xFF3F, 0xFF21, 0xFF41, 0xFF10, 0xFF05, // fullwidth @ ' _ A a 0 %
+	0x2019, 0x02BC, 0x2032, 0x0660, 0x06F0, 0x0966, 0x212A, 0x017F, 0x0130, 0x0131, 0xAA, 0xB2, 0xB5, 0x2160, 0x203F, 0xFE4F,
+	0x0301, 0x200D, 0xA0, 0x2028, 0x2029, 0x85, 0xFFFD, 0x80, 0x7FF, 0x800, 0xD7FF, 0xE000, 0xFFFE, 0xFFFF, 0x10000, 0x10FFFF, 0x1F600,
+}
+
+func aliasChars() []rune {
+	var out []rune
+	seen := map[rune]bool{}
+	add := func(c rune) {
+		if !seen[c] && c >= 0x80 && utf8.ValidRune(c) && c != 0xFEFF {
+			seen[c] = true
+			out = append(out, c)
+		}
+	}
+	for _, l := range aliasLifts {
+		for _, t := range aliasTargets {
+			add(l | rune(t))
+		}
+	}
+	for _, c := range aliasExtra {
+		add(c)
+	}
+	return out
+}
+
+var aliasTable = aliasChars()
+
+// fixedWide: every character of aliasTable directly after a placeholder name, after a bare '@', inside what would be a
+// longer name (which is bound to another argument), in front of a name, after the apostrophe delimiter, next to the verbs
+// of Sprintf; those whose low bits are a newline also in Comment and in front of a template
+func fixedWide() []Snip {
+	X := block("X")
+	one := varg(Val{T: "int", I: 1})
+	var out []Snip
+	for _, c := range aliasTable {
+		ch := string(c)
+		out = append(out,
+			tpl("@"+ch+"@x"+ch, named("x", X)),
+			tpl("@x"+ch+"y'z", named("x", X), named("x"+ch, block("WRONG")), named("x"+ch+"y", block("WRONG")), named("xy", block("WRONG"))),
+			tpl(ch+"x@x'"+ch+"'", named("x", X)),
+			spf("%v"+ch+"%%"+ch+"v%T"+ch, one, varg(Val{T: "name", S: "Foo"})),
+		)
+		switch c & 0x7f {
+		case '%', 'v', 'T':
+			out = append(out, spf("%"+ch, one), spf("a%"+ch+"b", sarg(X)))
+		}
+		switch c & 0x7f {
+		case '\n':
+			out = append(out, comment("a"+ch+"b"), tpl("\n"+ch+"\n@x", named("x", X)), tpl(ch+"\n\n@x", named("x", X)))
+		}
+	}
+	for _, c := range []rune{0x2028, 0x2029, 0x85} {
+		out = append(out, comment("a"+string(c)+"b"), tpl(string(c)+"\n@x", named("x", X)))
+	}
+	return out
+}
+
+// wideChar: half of the time a character of aliasTable, otherwise a scalar value drawn from a plane class
+func (g *gen) wideChar() string {
+	r := g.r
+	if r.Bool() {
+		return string(core.Pick(r, aliasTable))
+	}
+	for {
+		var c rune
+		switch r.Intn(6) {
+		case 0:
+			c = 0x80 + rune(r.Intn(0x80))
+		case 1:
+			c = 0x100 + rune(r.Intn(0x700))
+		case 2:
+			c = 0x800 + rune(r.Intn(0x3600))
+		case 3:
+			c = 0x3400 + rune(r.Intn(0x6C00))
+		case 4:
+			c = 0xA000 + rune(r.Intn(0x6000))
+		default:
+			c = 0x10000 + rune(r.Intn(0x100000))
+		}
+		if utf8.ValidRune(c) && c != 0xFEFF {
+			return string(c)
+		}
+	}
+}
+
+// ---- Snippets whose sequence is not re-iterable ----
+
+var seqKinds = []string{"chan", "once", "counter"}
+
+func seqSnips(kind string, l ...Snip) Snip { x := snippets(l...); x.Seq = kind; return x }
+
+// fixedSeq: each kind of sequence at every place where a Snippets is rendered: by Render itself, bound to a placeholder,
+// as a part of Snippets (re-iterable or not), behind Fragments, as a Sprintf argument; first part non-nil / nil / empty
+func fixedSeq() []Snip {
+	a, b, c := block("a;"), block("b;"), block("c;")
+	var out []Snip
+	for _, k := range seqKinds {
+		abc := seqSnips(k, a, b, c)
+		out = append(out,
+			abc,
+			seqSnips(k), seqSnips(k, a), seqSnips(k, nilS(), block(""), a, b), seqSnips(k, nilS()), seqSnips(k, tpl(""), value(Val{T: "nil"})),
+			tpl("@x", named("x", abc)),
+			tpl("switch {\n@cases'}\n", named("cases", seqSnips(k, tpl("case @n':\n", named("n", block("1"))), tpl("case @n':\n", named("n", block("2")))))),
+			tpl("[@x'|@y]", named("x", abc), named("y", seqSnips(k, nilS(), c))),
+			tplArgs("@x", named("x", abc)),
+			snippets(block("<"), abc, block(">")),
+			snippets(abc, seqSnips(k, b)),
+			seqSnips(k, block("x"), seqSnips(k, block("y")), block("z")),
+			seqSnips(k, seqSnips(k, nilS(), a), seqSnips(k, b)),
+			fragments(abc),
+			fragments(snippets(abc)),
+			tpl("@x", named("x", fragments(abc))),
+			spf("%v|%T", sarg(abc), sarg(seqSnips(k, a, b))),
+			spf("{%T}", sarg(tpl("@x", named("x", abc)))),
+			tpl("@x", named("x", tpl("(@y)", named("y", snippets(abc))))),
+			// a placeholder repeated: the argument is rendered twice, so the sequence is taken as a slice (normalizeSeq)
+			tpl("@x@x", named("x", abc)),
+		)
+	}
+	return out
+}
+
+// seqList: a Snippets over a sequence that is not re-iterable; a third of them start with nil / empty parts
+func (g *gen) seqList(depth int) Snip {
+	r := g.r
+	var l []Snip
+	if r.Chance(30) {
+		l = append(l, core.Pick(r, []Snip{nilS(), block(""), tpl(""), value(Val{T: "nil"})}))
+	}
+	n := r.Intn(5)
+	for i := 0; i < n; i++ {
+		if r.Chance(60) {
+			l = append(l, block(core.Pick(r, []string{"a;", "b;", "c;", "x", "\n", "@x", "1:"})))
+		} else {
+			l = append(l, g.argSnip(depth+1))
+		}
+	}
+	return seqSnips(core.Pick(r, seqKinds), l...)
+}
+
+func (g *gen) seqRoot() Snip {
+	g.seq = true
+	defer func() { g.seq = false }()
+	r := g.r
+	var s Snip
+	switch k := r.Intn(100); {
+	case k < 12:
+		s = g.seqList(0)
+	case k < 30:
+		s = tpl(core.Pick(r, []string{"@x", "a@x'b", "@x @y", "\n@y'@x", "(@x)", "@xy@x"}), named("x", g.seqList(1)), named("y", g.argSnip(1)))
+	case k < 40:
+		s = snippets(g.argSnip(1), g.seqList(1), g.argSnip(1))
+	case k < 48:
+		s = fragments(g.seqList(1))
+	case k < 55:
+		s = spf(core.Pick(r, []string{"%v", "%T", "a%vb%T", "%%%v"}), sarg(g.seqList(1)), sarg(g.argSnip(1)))
+	default:
+		s = g.root()
+	}
+	normalizeSeq(&s, 1)
+	return s
 }
 
 func (g *gen) lit() string {
 	r := g.r
+	if g.wide && r.Chance(35) {
+		return g.wideChar()
+	}
 	switch r.Intn(12) {
 	case 0:
 		return core.Pick(r, []string{"é", "世", "ü", "😀", " ", "ſ"})
@@ -155,6 +351,9 @@ func (g *gen) argSnip(depth int) Snip {
 	r := g.r
 	if g.rich && r.Chance(55) {
 		return g.richLeaf()
+	}
+	if g.seq && depth < 3 && r.Chance(25) {
+		return g.seqList(depth)
 	}
 	k := r.Intn(100)
 	switch {
@@ -208,6 +407,17 @@ func (g *gen) template(depth int) Snip {
 			nm := core.Pick(r, names)
 			used[nm] = true
 			b.WriteString("@" + nm)
+			if g.wide && r.Chance(60) { // a character that is not a name character directly after the name
+				c := g.wideChar()
+				b.WriteString(c)
+				if r.Chance(25) { // what a scanner that takes it for one would look up
+					used[nm+c] = true
+				}
+				if r.Chance(30) {
+					b.WriteString(core.Pick(r, []string{"'", "y", "_", "1", c}))
+				}
+				continue
+			}
 			switch t := r.Intn(100); {
 			case t < 35:
 				b.WriteString("'")
@@ -225,6 +435,10 @@ func (g *gen) template(depth int) Snip {
 			default: // nothing: the next piece may extend the name or start another placeholder
 			}
 		case k < 44:
+			if g.wide && r.Chance(70) {
+				b.WriteString("@" + g.wideChar())
+				continue
+			}
 			b.WriteString(core.Pick(r, []string{"@@", "@ ", "@'", "@.", "@-", "@\n", "@é", "@%"}))
 		default:
 			b.WriteString(g.lit())
@@ -391,6 +605,10 @@ func (g *gen) sprintf(depth int) Snip {
 		case k < 55:
 			b.WriteString("%%")
 		case k < 57:
+			if g.wide {
+				b.WriteString("%" + g.wideChar())
+				continue
+			}
 			b.WriteString(core.Pick(r, []string{"%d", "%s", "% ", "%é", "%'", "%@"}))
 		default:
 			l := g.lit()
@@ -733,6 +951,36 @@ func (prop) Generate(r *core.RNG, tier string) []json.RawMessage {
 			out = append(out, enc(gr.richRoot()))
 		}
 	}
+	{ // characters from all over the code space next to the syntax (own fork of the RNG)
+		for _, s := range fixedWide() {
+			out = append(out, enc(s))
+		}
+		gw := &gen{r: r.Fork(), wide: true}
+		m := 400
+		if tier == "thorough" {
+			m = 4000
+		}
+		for i := 0; i < m; i++ {
+			if gw.r.Chance(75) {
+				out = append(out, enc(gw.template(0)))
+			} else {
+				out = append(out, enc(gw.root()))
+			}
+		}
+	}
+	{ // Snippets over sequences that are not re-iterable (own fork of the RNG)
+		for _, s := range fixedSeq() {
+			out = append(out, enc(s))
+		}
+		gs := &gen{r: r.Fork()}
+		m := 400
+		if tier == "thorough" {
+			m = 4000
+		}
+		for i := 0; i < m; i++ {
+			out = append(out, enc(gs.seqRoot()))
+		}
+	}
 	if tier == "thorough" {
 		out = append(out, exhaustive()...)
 	}
@@ -862,11 +1110,16 @@ func shrinkSnip(s Snip) []Snip {
 		c.Share = false
 		out = append(out, c)
 	}
+	if s.Seq != "" {
+		c := s
+		c.Seq = ""
+		out = append(out, c)
+	}
 	// shorten the text
 	for _, t := range dropRunes(string(s.S)) {
 		c := mk(s.K, t)
 		c.Args, c.Strs, c.L, c.V, c.P, c.N, c.Pan, c.Self = s.Args, s.Strs, s.L, s.V, s.P, s.N, s.Pan, s.Self
-		c.Mode, c.Mut, c.Share = s.Mode, s.Mut, s.Share
+		c.Mode, c.Mut, c.Share, c.Seq = s.Mode, s.Mut, s.Share, s.Seq
 		out = append(out, c)
 	}
 	// simplify a child: to an empty block, to a literal block, or recursively
@@ -906,7 +1159,7 @@ func shrinkSnip(s Snip) []Snip {
 }
 
 func size(s *Snip) int {
-	n := 1 + len(s.S) + len(s.Strs) + len(s.Mode)
+	n := 1 + len(s.S) + len(s.Strs) + len(s.Mode) + len(s.Seq)
 	if s.Share {
 		n++
 	}
